@@ -64,17 +64,23 @@ class guard_globals:
     def __enter__(self):
         self.old = gvrng._gv_rng
         gvrng._gv_rng = ForbiddenRng()
-        self.np_state = np.random.get_state()[1][:8].tolist()
-        self.py_state = pyrandom.getstate()[1][:8]
+        self.np_state = self._np()
+        self.py_state = pyrandom.getstate()
         return self
+
+    @staticmethod
+    def _np():
+        # the whole state of numpy's legacy global generator: key words AND the position inside them (one draw only moves the position)
+        st = np.random.get_state()
+        return (st[0], st[1].tobytes(), st[2], st[3], st[4])
 
     def __exit__(self, et, ev, tb):
         touched = not isinstance(gvrng._gv_rng, ForbiddenRng)
         gvrng._gv_rng = self.old
         if et is None:
             self.sx.check(not touched, 'library-generator-not-replaced')
-            self.sx.check(np.random.get_state()[1][:8].tolist() == self.np_state, 'numpy-global-generator-untouched')
-            self.sx.check(pyrandom.getstate()[1][:8] == self.py_state, 'python-global-generator-untouched')
+            self.sx.check(self._np() == self.np_state, 'numpy-global-generator-untouched')
+            self.sx.check(pyrandom.getstate() == self.py_state, 'python-global-generator-untouched')
         return False
 
 
